@@ -41,6 +41,9 @@ func init() {
 		x := e.dec("x")
 		mj, err := x.MarshalJSON()
 		e["mj"] = ints(mj)
+		if err == nil {
+			e["alias"] = scribbleChanges(mj, func() []byte { r, _ := x.MarshalJSON(); return r })
+		}
 		e["mjerr"] = jsonErrClass(err)
 		var back d128.Decimal
 		if err == nil {
